@@ -29,7 +29,7 @@ ASSUMPTIONS = [
 BIG_KINDS = ("item", "item-ops", "$and", "$or", "$not", "$and_any_order")
 KINDS = ["item", "item-ops", "$and", "$or", "$not", "$and_any_order", "nested-times", "nested-times", "capture-ref", "nested-times-gap", "nested-times-gap", "or-with-not"]
 SHAPES = ["sandwich", "sandwich", "sandwich", "free", "meta", "meta"]
-FLOORS = {"shape=sandwich": 0.3, "shape=meta": 0.2, "edge=min": 0.035, "edge=max": 0.035, "edge=max+1": 0.028, "edge=min-1": 0.02, "rel=macro-plain-use": 0.009, "rel=macro-times-use": 0.006, "rel=operand-regcapture-ref": 0.005, "bounds=multi-digit": 0.03, "bounds=around-1000": 0.004, "spelling=sibling-null": 0.04}
+FLOORS = {"shape=sandwich": 0.3, "shape=meta": 0.2, "edge=min": 0.035, "edge=max": 0.035, "edge=max+1": 0.028, "edge=min-1": 0.02, "rel=macro-plain-use": 0.009, "rel=macro-times-use": 0.006, "rel=operand-regcapture-ref": 0.005, "rel=operand-plain": 0.004, "bounds=multi-digit": 0.03, "bounds=around-1000": 0.004, "spelling=sibling-null": 0.04}
 for _k in KINDS:
     FLOORS[f"kind={_k}"] = 0.04
 
@@ -297,7 +297,7 @@ def cases(draw):
         assume(_names_ok(pattern))
         return {"shape": shape, "kind": kind, "listing": L, "pattern": pattern, "edge": edge, "times": t, "r": r, "flags": list(full), "ext": ext, "big": big, "huge": huge, "spelling": spelling}
     # meta
-    rel = draw(st.sampled_from(["unroll", "unroll", "range-eq-int", "spelling", "operand-deref", "operand-or", "operand-not", "operand-capture-ref", "operand-regcapture-ref", "macro-plain-use", "macro-plain-use", "macro-plain-use", "macro-times-use", "macro-times-use", "macro-times-use", "macro-times-use"]))
+    rel = draw(st.sampled_from(["unroll", "unroll", "range-eq-int", "spelling", "operand-deref", "operand-or", "operand-not", "operand-plain", "operand-capture-ref", "operand-regcapture-ref", "macro-plain-use", "macro-plain-use", "macro-plain-use", "macro-times-use", "macro-times-use", "macro-times-use", "macro-times-use"]))
     n_ = draw(st.integers(0, 4))
     macros = None
     if rel in ("macro-plain-use", "macro-times-use") and (kind not in ("item", "item-ops", "$or", "$and") or not usable):
@@ -363,6 +363,12 @@ def cases(draw):
         elif rel == "operand-regcapture-ref":
             att, norm = draw(st.sampled_from([("%rax", "%rax"), ("%ebx", "%ebx"), ("%cx", "%cx"), ("%dl", "%dl")]))
             opnode = None
+        elif rel == "operand-plain":
+            # a plain operand name with `times` as sibling key ({rax: [], times: n}): repeats the operand like any other node there (F48)
+            att, norm = draw(st.sampled_from([("%rax", "%rax"), ("$0x10", "0x10"), ("%r8d", "%r8d"), ("%xmm0", "%xmm0")]))
+            # (the whole operand text as the name: a substring that occurs twice in the operand - the 0 of 0x10 - gives the failing side
+            # of a long run 2^n ways to place it, see corrections 27)
+            opnode = {norm.lstrip("%"): []}
         elif rel == "operand-not":
             # n consecutive operands none of which is the negated one (half of the time one of them is: both spellings then fail)
             att, norm = draw(st.sampled_from([("%rax", "%rax"), ("$0x10", "0x10"), ("%r8d", "%r8d")]))
@@ -388,7 +394,7 @@ def cases(draw):
             tn = dict(opnode)
             tn["times"] = tval
             p1 = [dA, {"vfoo": [tn, "c" if tail_norm == "%rcx" else "0x1"]}, dB]
-            p2 = [dA, {"vfoo": [copy.deepcopy(opnode) for _ in range(n_)] + ["c" if tail_norm == "%rcx" else "0x1"]}, dB]
+            p2 = [dA, {"vfoo": [copy.deepcopy(opnode) if rel != "operand-plain" else list(opnode)[0] for _ in range(n_)] + ["c" if tail_norm == "%rcx" else "0x1"]}, dB]
     assume(_names_ok(p1) and _names_ok(p2))
     out = {"shape": shape, "kind": kind if rel in ("unroll", "range-eq-int") else rel, "rel": rel, "listing": L, "pattern": p1, "pattern2": p2, "edge": "meta", "n": n_, "flags": list(full)}
     if macros:
